@@ -1,4 +1,6 @@
 import NmlVerif.Model.Accessors
+import NmlVerif.Model.Rx
+import NmlVerif.Model.AccSummary
 /-! GENERATED on every check run by harness/props/c19.py (regenerate) from the Python AST of
     neuroml/nml/helper_methods.py, neuroml/nml/nml.py and neuroml/hdf5/NeuroMLXMLParser.py. Do not edit. -/
 set_option linter.unusedVariables false
@@ -267,6 +269,31 @@ def Helper.summaryLines : List (List Seg) :=
    [.lit "*   ", .tot .conns, .lit " connections in ", .tot .projs, .lit " projections "],
    [.lit "*   ", .tot .inputs, .lit " inputs in ", .tot .inputLists, .lit " input lists "]]
 
+/-- the body of `for network in self.networks:` of `summary` (Helper) -/
+def Helper.netProg : List Summ.L3 :=
+  [(.base (.base (.base (.addS "info" [.lit "*  Network: ", .netS "id"])))),
+   (.ifC (.netTruthy "temperature") [(.base (.base (.addS "info" [.lit " (temperature: ", .netS "temperature", .lit ")"])))]),
+   (.base (.base (.base (.addS "info" [.lit "\n*\n"])))),
+   (.base (.base (.base (.setN "tot_pop" 0)))),
+   (.base (.base (.base (.setN "tot_cells" 0)))),
+   (.base (.base (.base (.setS "pop_info" "")))),
+   (.forNet "populations" true [(.base (.base (.addS "pop_info" [.lit "*     ", .itemText, .lit "\n"]))), (.base (.base (.addN "tot_pop" .one))), (.base (.base (.addN "tot_cells" .itemSize))), (.ifC (.itemLenPos "instances") [(.base (.addS "pop_info" [.lit "*       Locations: [", .itemFirstObj "instances" "location", .lit ", ...]\n"]))]), (.ifC (.itemLenPos "properties") [(.base (.addS "pop_info" [.lit "*       Properties: "])), (.forItem "properties" [(.addS "pop_info" [.leafStr "tag", .lit "=", .leafStr "value", .lit "; "])]), (.base (.addS "pop_info" [.lit "\n"]))])]),
+   (.base (.base (.base (.addS "info" [.lit "*   ", .nv "tot_cells", .lit " cells in ", .nv "tot_pop", .lit " populations \n", .sv "pop_info", .lit "*\n"])))),
+   (.base (.base (.base (.setN "tot_proj" 0)))),
+   (.base (.base (.base (.setN "tot_conns" 0)))),
+   (.base (.base (.base (.setS "proj_info" "")))),
+   (.forNet "projections" true [(.base (.base (.addS "proj_info" [.lit "*     ", .itemText, .lit "\n"]))), (.base (.base (.addN "tot_proj" .one))), (.base (.base (.addN "tot_conns" (.itemLen "connections")))), (.base (.base (.addN "tot_conns" (.itemLen "connection_wds")))), (.ifC (.itemLenPos "connections") [(.base (.addS "proj_info" [.lit "*       ", .itemLen "connections", .lit " connections: [(", .itemFirst "connections", .lit "), ...]\n"]))]), (.ifC (.itemLenPos "connection_wds") [(.base (.addS "proj_info" [.lit "*       ", .itemLen "connection_wds", .lit " connections (wd): [(", .itemFirst "connection_wds", .lit "), ...]\n"]))])]),
+   (.forNet "electrical_projections" true [(.base (.base (.addS "proj_info" [.lit "*     Electrical projection: ", .itemS "id", .lit " from ", .itemS "presynaptic_population", .lit " to ", .itemS "postsynaptic_population", .lit "\n"]))), (.base (.base (.addN "tot_proj" .one))), (.base (.base (.addN "tot_conns" (.itemLen "electrical_connections")))), (.base (.base (.addN "tot_conns" (.itemLen "electrical_connection_instances")))), (.base (.base (.addN "tot_conns" (.itemLen "electrical_connection_instance_ws")))), (.ifC (.itemLenPos "electrical_connections") [(.base (.addS "proj_info" [.lit "*       ", .itemLen "electrical_connections", .lit " connections: [(", .itemFirst "electrical_connections", .lit "), ...]\n"]))]), (.ifC (.itemLenPos "electrical_connection_instances") [(.base (.addS "proj_info" [.lit "*       ", .itemLen "electrical_connection_instances", .lit " connections: [(", .itemFirst "electrical_connection_instances", .lit "), ...]\n"]))]), (.ifC (.itemLenPos "electrical_connection_instance_ws") [(.base (.addS "proj_info" [.lit "*       ", .itemLen "electrical_connection_instance_ws", .lit " connections: [(", .itemFirst "electrical_connection_instance_ws", .lit "), ...]\n"]))])]),
+   (.forNet "continuous_projections" true [(.base (.base (.addS "proj_info" [.lit "*     Continuous projection: ", .itemS "id", .lit " from ", .itemS "presynaptic_population", .lit " to ", .itemS "postsynaptic_population", .lit "\n"]))), (.base (.base (.addN "tot_proj" .one))), (.base (.base (.addN "tot_conns" (.itemLen "continuous_connections")))), (.base (.base (.addN "tot_conns" (.itemLen "continuous_connection_instances")))), (.base (.base (.addN "tot_conns" (.itemLen "continuous_connection_instance_ws")))), (.ifC (.itemLenPos "continuous_connections") [(.base (.addS "proj_info" [.lit "*       ", .itemLen "continuous_connections", .lit " connections: [(", .itemFirst "continuous_connections", .lit "), ...]\n"]))]), (.ifC (.itemLenPos "continuous_connection_instances") [(.base (.addS "proj_info" [.lit "*       ", .itemLen "continuous_connection_instances", .lit " connections: [(", .itemFirst "continuous_connection_instances", .lit "), ...]\n"]))]), (.ifC (.itemLenPos "continuous_connection_instance_ws") [(.base (.addS "proj_info" [.lit "*       ", .itemLen "continuous_connection_instance_ws", .lit " connections (w): [(", .itemFirst "continuous_connection_instance_ws", .lit "), ...]\n"]))])]),
+   (.base (.base (.base (.addS "info" [.lit "*   ", .nv "tot_conns", .lit " connections in ", .nv "tot_proj", .lit " projections \n", .sv "proj_info", .lit "*\n"])))),
+   (.ifC (.netLenPos "synaptic_connections") [(.base (.base (.addS "info" [.lit "*   ", .netLen "synaptic_connections", .lit " explicit synaptic connections (outside of projections)\n"]))), (.forNet "synaptic_connections" false [(.base (.addS "info" [.lit "*     ", .itemText, .lit "\n"]))]), (.base (.base (.addS "info" [.lit "*\n"])))]),
+   (.base (.base (.base (.setN "tot_input_lists" 0)))),
+   (.base (.base (.base (.setN "tot_inputs" 0)))),
+   (.base (.base (.base (.setS "input_info" "")))),
+   (.forNet "input_lists" true [(.base (.base (.addS "input_info" [.lit "*     ", .itemText, .lit "\n"]))), (.base (.base (.addN "tot_input_lists" .one))), (.ifC (.itemLenPos "input") [(.base (.addS "input_info" [.lit "*       ", .itemLen "input", .lit " inputs: [(", .itemFirst "input", .lit "), ...]\n"])), (.base (.addN "tot_inputs" (.itemLen "input")))]), (.ifC (.itemLenPos "input_ws") [(.base (.addS "input_info" [.lit "*       ", .itemLen "input_ws", .lit " inputs: [(", .itemFirst "input_ws", .lit "), ...]\n"])), (.base (.addN "tot_inputs" (.itemLen "input_ws")))])]),
+   (.base (.base (.base (.addS "info" [.lit "*   ", .nv "tot_inputs", .lit " inputs in ", .nv "tot_input_lists", .lit " input lists \n", .sv "input_info", .lit "*\n"])))),
+   (.ifC (.netLenPos "explicit_inputs") [(.base (.base (.addS "info" [.lit "*   ", .netLen "explicit_inputs", .lit " explicit inputs (outside of input lists)\n"]))), (.forNet "explicit_inputs" false [(.base (.addS "info" [.lit "*     ", .itemText, .lit "\n"]))]), (.base (.base (.addS "info" [.lit "*\n"])))])]
+
 /-! ### accessors, Nml -/
 
 def Nml.Connection._get_cell_id (fs : FloatSem F) (self : Obj F) (id_string : Res F) : Res F :=
@@ -529,6 +556,31 @@ def Nml.summaryLines : List (List Seg) :=
    [.lit "*   ", .tot .conns, .lit " connections in ", .tot .projs, .lit " projections "],
    [.lit "*   ", .tot .inputs, .lit " inputs in ", .tot .inputLists, .lit " input lists "]]
 
+/-- the body of `for network in self.networks:` of `summary` (Nml) -/
+def Nml.netProg : List Summ.L3 :=
+  [(.base (.base (.base (.addS "info" [.lit "*  Network: ", .netS "id"])))),
+   (.ifC (.netTruthy "temperature") [(.base (.base (.addS "info" [.lit " (temperature: ", .netS "temperature", .lit ")"])))]),
+   (.base (.base (.base (.addS "info" [.lit "\n*\n"])))),
+   (.base (.base (.base (.setN "tot_pop" 0)))),
+   (.base (.base (.base (.setN "tot_cells" 0)))),
+   (.base (.base (.base (.setS "pop_info" "")))),
+   (.forNet "populations" true [(.base (.base (.addS "pop_info" [.lit "*     ", .itemText, .lit "\n"]))), (.base (.base (.addN "tot_pop" .one))), (.base (.base (.addN "tot_cells" .itemSize))), (.ifC (.itemLenPos "instances") [(.base (.addS "pop_info" [.lit "*       Locations: [", .itemFirstObj "instances" "location", .lit ", ...]\n"]))]), (.ifC (.itemLenPos "properties") [(.base (.addS "pop_info" [.lit "*       Properties: "])), (.forItem "properties" [(.addS "pop_info" [.leafStr "tag", .lit "=", .leafStr "value", .lit "; "])]), (.base (.addS "pop_info" [.lit "\n"]))])]),
+   (.base (.base (.base (.addS "info" [.lit "*   ", .nv "tot_cells", .lit " cells in ", .nv "tot_pop", .lit " populations \n", .sv "pop_info", .lit "*\n"])))),
+   (.base (.base (.base (.setN "tot_proj" 0)))),
+   (.base (.base (.base (.setN "tot_conns" 0)))),
+   (.base (.base (.base (.setS "proj_info" "")))),
+   (.forNet "projections" true [(.base (.base (.addS "proj_info" [.lit "*     ", .itemText, .lit "\n"]))), (.base (.base (.addN "tot_proj" .one))), (.base (.base (.addN "tot_conns" (.itemLen "connections")))), (.base (.base (.addN "tot_conns" (.itemLen "connection_wds")))), (.ifC (.itemLenPos "connections") [(.base (.addS "proj_info" [.lit "*       ", .itemLen "connections", .lit " connections: [(", .itemFirst "connections", .lit "), ...]\n"]))]), (.ifC (.itemLenPos "connection_wds") [(.base (.addS "proj_info" [.lit "*       ", .itemLen "connection_wds", .lit " connections (wd): [(", .itemFirst "connection_wds", .lit "), ...]\n"]))])]),
+   (.forNet "electrical_projections" true [(.base (.base (.addS "proj_info" [.lit "*     Electrical projection: ", .itemS "id", .lit " from ", .itemS "presynaptic_population", .lit " to ", .itemS "postsynaptic_population", .lit "\n"]))), (.base (.base (.addN "tot_proj" .one))), (.base (.base (.addN "tot_conns" (.itemLen "electrical_connections")))), (.base (.base (.addN "tot_conns" (.itemLen "electrical_connection_instances")))), (.base (.base (.addN "tot_conns" (.itemLen "electrical_connection_instance_ws")))), (.ifC (.itemLenPos "electrical_connections") [(.base (.addS "proj_info" [.lit "*       ", .itemLen "electrical_connections", .lit " connections: [(", .itemFirst "electrical_connections", .lit "), ...]\n"]))]), (.ifC (.itemLenPos "electrical_connection_instances") [(.base (.addS "proj_info" [.lit "*       ", .itemLen "electrical_connection_instances", .lit " connections: [(", .itemFirst "electrical_connection_instances", .lit "), ...]\n"]))]), (.ifC (.itemLenPos "electrical_connection_instance_ws") [(.base (.addS "proj_info" [.lit "*       ", .itemLen "electrical_connection_instance_ws", .lit " connections: [(", .itemFirst "electrical_connection_instance_ws", .lit "), ...]\n"]))])]),
+   (.forNet "continuous_projections" true [(.base (.base (.addS "proj_info" [.lit "*     Continuous projection: ", .itemS "id", .lit " from ", .itemS "presynaptic_population", .lit " to ", .itemS "postsynaptic_population", .lit "\n"]))), (.base (.base (.addN "tot_proj" .one))), (.base (.base (.addN "tot_conns" (.itemLen "continuous_connections")))), (.base (.base (.addN "tot_conns" (.itemLen "continuous_connection_instances")))), (.base (.base (.addN "tot_conns" (.itemLen "continuous_connection_instance_ws")))), (.ifC (.itemLenPos "continuous_connections") [(.base (.addS "proj_info" [.lit "*       ", .itemLen "continuous_connections", .lit " connections: [(", .itemFirst "continuous_connections", .lit "), ...]\n"]))]), (.ifC (.itemLenPos "continuous_connection_instances") [(.base (.addS "proj_info" [.lit "*       ", .itemLen "continuous_connection_instances", .lit " connections: [(", .itemFirst "continuous_connection_instances", .lit "), ...]\n"]))]), (.ifC (.itemLenPos "continuous_connection_instance_ws") [(.base (.addS "proj_info" [.lit "*       ", .itemLen "continuous_connection_instance_ws", .lit " connections (w): [(", .itemFirst "continuous_connection_instance_ws", .lit "), ...]\n"]))])]),
+   (.base (.base (.base (.addS "info" [.lit "*   ", .nv "tot_conns", .lit " connections in ", .nv "tot_proj", .lit " projections \n", .sv "proj_info", .lit "*\n"])))),
+   (.ifC (.netLenPos "synaptic_connections") [(.base (.base (.addS "info" [.lit "*   ", .netLen "synaptic_connections", .lit " explicit synaptic connections (outside of projections)\n"]))), (.forNet "synaptic_connections" false [(.base (.addS "info" [.lit "*     ", .itemText, .lit "\n"]))]), (.base (.base (.addS "info" [.lit "*\n"])))]),
+   (.base (.base (.base (.setN "tot_input_lists" 0)))),
+   (.base (.base (.base (.setN "tot_inputs" 0)))),
+   (.base (.base (.base (.setS "input_info" "")))),
+   (.forNet "input_lists" true [(.base (.base (.addS "input_info" [.lit "*     ", .itemText, .lit "\n"]))), (.base (.base (.addN "tot_input_lists" .one))), (.ifC (.itemLenPos "input") [(.base (.addS "input_info" [.lit "*       ", .itemLen "input", .lit " inputs: [(", .itemFirst "input", .lit "), ...]\n"])), (.base (.addN "tot_inputs" (.itemLen "input")))]), (.ifC (.itemLenPos "input_ws") [(.base (.addS "input_info" [.lit "*       ", .itemLen "input_ws", .lit " inputs: [(", .itemFirst "input_ws", .lit "), ...]\n"])), (.base (.addN "tot_inputs" (.itemLen "input_ws")))])]),
+   (.base (.base (.base (.addS "info" [.lit "*   ", .nv "tot_inputs", .lit " inputs in ", .nv "tot_input_lists", .lit " input lists \n", .sv "input_info", .lit "*\n"])))),
+   (.ifC (.netLenPos "explicit_inputs") [(.base (.base (.addS "info" [.lit "*   ", .netLen "explicit_inputs", .lit " explicit inputs (outside of input lists)\n"]))), (.forNet "explicit_inputs" false [(.base (.addS "info" [.lit "*     ", .itemText, .lit "\n"]))]), (.base (.base (.addS "info" [.lit "*\n"])))])]
+
 /-! ### constructors (nml.py) -/
 
 def Nml.Connection.fields : List CtorField :=
@@ -622,5 +674,31 @@ def Nml.Population.fields : List CtorField :=
 
 def XmlParser.NeuroMLXMLParser._parse_delay (fs : FloatSem F) (self : Obj F) (delay_string : Res F) : Res F :=
   (pIfElse fs (pEndsWith ['m', 's'] delay_string) (pFloat fs (pStrip (pDropRight 2 delay_string))) (pIfElse fs (pEndsWith ['s'] delay_string) (pMulF fs (pFloat fs (pStrip (pDropRight 1 delay_string))) fs.thousand) pexit))
+
+/-! ### schema patterns (NeuroML_v2.3.1.xsd and nml.py), parsed by Python's `re._parser` -/
+
+/-- Xsd `-?([0-9]*(\.[0-9]+)?)([eE]-?[0-9]+)?[\s]*(s|ms)` -/
+def Xsd.timeRx : Rx.Rx :=
+  (.seq (Rx.Rx.opt (Rx.Rx.chr '-')) (.seq (.seq (.star (.set ⟨[(48, 57)], false⟩)) (Rx.Rx.opt (.seq (Rx.Rx.chr '.') (Rx.Rx.plus (.set ⟨[(48, 57)], false⟩))))) (.seq (Rx.Rx.opt (.seq (.set ⟨[(101, 101), (69, 69)], false⟩) (.seq (Rx.Rx.opt (Rx.Rx.chr '-')) (Rx.Rx.plus (.set ⟨[(48, 57)], false⟩))))) (.seq (.star (.set ⟨[], true⟩)) (.alt (Rx.Rx.chr 's') (.seq (Rx.Rx.chr 'm') (Rx.Rx.chr 's')))))))
+
+/-- Xsd `(\.\./)?([a-zA-Z_][a-zA-Z0-9_]*)((\[[0-9]+\])|(/[0-9]+)+((/[a-zA-Z_][a-zA-Z0-9_]*)?)/?)` -/
+def Xsd.refRx : Rx.Rx :=
+  (.seq (Rx.Rx.opt (.seq (Rx.Rx.chr '.') (.seq (Rx.Rx.chr '.') (Rx.Rx.chr '/')))) (.seq (.seq (.set ⟨[(97, 122), (65, 90), (95, 95)], false⟩) (.star (.set ⟨[(97, 122), (65, 90), (48, 57), (95, 95)], false⟩))) (.alt (.seq (Rx.Rx.chr '[') (.seq (Rx.Rx.plus (.set ⟨[(48, 57)], false⟩)) (Rx.Rx.chr ']'))) (.seq (Rx.Rx.plus (.seq (Rx.Rx.chr '/') (Rx.Rx.plus (.set ⟨[(48, 57)], false⟩)))) (.seq (Rx.Rx.opt (.seq (Rx.Rx.chr '/') (.seq (.set ⟨[(97, 122), (65, 90), (95, 95)], false⟩) (.star (.set ⟨[(97, 122), (65, 90), (48, 57), (95, 95)], false⟩))))) (Rx.Rx.opt (Rx.Rx.chr '/')))))))
+
+/-- Xsd `[a-zA-Z_][a-zA-Z0-9_]*` -/
+def Xsd.nmlIdRx : Rx.Rx :=
+  (.seq (.set ⟨[(97, 122), (65, 90), (95, 95)], false⟩) (.star (.set ⟨[(97, 122), (65, 90), (48, 57), (95, 95)], false⟩)))
+
+/-- Nml `^(-?([0-9]*(\.[0-9]+)?)([eE]-?[0-9]+)?[\s]*(s|ms))$` -/
+def Nml.timeRx : Rx.Rx :=
+  (.seq (Rx.Rx.opt (Rx.Rx.chr '-')) (.seq (.seq (.star (.set ⟨[(48, 57)], false⟩)) (Rx.Rx.opt (.seq (Rx.Rx.chr '.') (Rx.Rx.plus (.set ⟨[(48, 57)], false⟩))))) (.seq (Rx.Rx.opt (.seq (.set ⟨[(101, 101), (69, 69)], false⟩) (.seq (Rx.Rx.opt (Rx.Rx.chr '-')) (Rx.Rx.plus (.set ⟨[(48, 57)], false⟩))))) (.seq (.star (.set ⟨[], true⟩)) (.alt (Rx.Rx.chr 's') (.seq (Rx.Rx.chr 'm') (Rx.Rx.chr 's')))))))
+
+/-- Nml `^((\.\./)?([a-zA-Z_][a-zA-Z0-9_]*)((\[[0-9]+\])|(/[0-9]+)+((/[a-zA-Z_][a-zA-Z0-9_]*)?)/?))$` -/
+def Nml.refRx : Rx.Rx :=
+  (.seq (Rx.Rx.opt (.seq (Rx.Rx.chr '.') (.seq (Rx.Rx.chr '.') (Rx.Rx.chr '/')))) (.seq (.seq (.set ⟨[(97, 122), (65, 90), (95, 95)], false⟩) (.star (.set ⟨[(97, 122), (65, 90), (48, 57), (95, 95)], false⟩))) (.alt (.seq (Rx.Rx.chr '[') (.seq (Rx.Rx.plus (.set ⟨[(48, 57)], false⟩)) (Rx.Rx.chr ']'))) (.seq (Rx.Rx.plus (.seq (Rx.Rx.chr '/') (Rx.Rx.plus (.set ⟨[(48, 57)], false⟩)))) (.seq (Rx.Rx.opt (.seq (Rx.Rx.chr '/') (.seq (.set ⟨[(97, 122), (65, 90), (95, 95)], false⟩) (.star (.set ⟨[(97, 122), (65, 90), (48, 57), (95, 95)], false⟩))))) (Rx.Rx.opt (Rx.Rx.chr '/')))))))
+
+/-- Nml `^([a-zA-Z_][a-zA-Z0-9_]*)$` -/
+def Nml.nmlIdRx : Rx.Rx :=
+  (.seq (.set ⟨[(97, 122), (65, 90), (95, 95)], false⟩) (.star (.set ⟨[(97, 122), (65, 90), (48, 57), (95, 95)], false⟩)))
 
 end NmlVerif.Acc.Gen
